@@ -251,6 +251,30 @@ func structCrashProperty(t *rapid.T, sc structCrashCfg) {
 				big = f
 			}
 		}
+		if (big == nil || len(big.Blocks) <= 520) && x.UsedUpper()+700 < int(size-1540) {
+			// no dense file yet: make one now (two writes, each a timeline entry of its own)
+			root := LiveRef(x.M.Root)
+			name := fmt.Sprintf("zdense%d", len(x.Log))
+			cr.Step(func() error {
+				if x.Create(root, name) != nil || !x.LastOK {
+					cut = true
+				}
+				return nil
+			})
+			if f := x.M.Root.Children[name]; f != nil && !cut {
+				for i := uint64(0); i < 2 && !cut; i++ {
+					cr.Step(func() error {
+						if x.Write(LiveRef(f), i*300*BlockSize, patternData(g.nextTag(), 300*BlockSize), 300*BlockSize, nt.UNSTABLE) != nil || !x.LastOK {
+							cut = true
+						}
+						return nil
+					})
+				}
+				if !cut {
+					big = f
+				}
+			}
+		}
 		if big != nil && len(big.Blocks) > 520 {
 			St.Class("programs_ending_with_the_free_of_a_dense_file")
 		}
